@@ -137,12 +137,14 @@ void Exec::op_stmt(const Json& o){
       }
     }
   }
-  begin(std::string("stmt:")+expr_names[s.expr],operand_mismatch?"C14":"C15");
+  begin(std::string("stmt:")+expr_names[s.expr],expect_throw?"C14":"C15");
   long blocks_a=oa.block,blocks_b=ob.block;
   int rc=stmt_table[s.expr](c,s);
   bool fired=end();
   if(ebuf) verif::user_buffer_free(ebuf);
-  int st=settle(rc,fired,expect_throw,"C09",operand_mismatch?"C14":"C09",sig);
+  // a statement that must be rejected - operands of different dimension, or a result that does not fit a target which cannot be resized (user
+  // storage, or any target of += / -=) - is a C14 matter; an exception out of a valid statement is a C09 matter
+  int st=settle(rc,fired,expect_throw,"C09",expect_throw?"C14":"C09",sig+(target_throw?":target-size":""));
   bool consumed_a=(s.a.cat==CAT_MOVE),consumed_b=(binary&&s.b.cat==CAT_MOVE);
   if(st==ST_DONE){
     MVec& mt=c.mv[T];
